@@ -107,7 +107,7 @@ def run_case(ctx, g, rng):
                 S.counters["wl:string-form-splits-earlier"] += 1
                 continue
             probe.evaluated("pair-forms-agree")
-            if not (repr(a) == repr(b) == repr(e)) or repr(al) != repr(bl):
+            if not (probe.okey(a) == probe.okey(b) == probe.okey(e)) or probe.okey(al) != probe.okey(bl):
                 violation(["C02"], "pair-forms-agree", "string-pair-reference-forms-disagree",
                           records=[spec.rec_dict(r) for r in recs], delimiter=d, prefix=p, identifier=i,
                           expand=a, expand_pair=b, expand_reference=e, expand_all=al, expand_pair_all=bl)
